@@ -22,8 +22,13 @@ TRUSTED_BASE_COMMON = [
 
 def sh(cmd, cwd=None, timeout=None, env=None, stdin=None, stdout=subprocess.PIPE):
     t = time.time()
-    p = subprocess.run(cmd, cwd=cwd, shell=isinstance(cmd, str), stdout=stdout, stderr=subprocess.STDOUT,
-                       text=True, timeout=timeout, env=env or ENV, stdin=stdin)
+    try:
+        p = subprocess.run(cmd, cwd=cwd, shell=isinstance(cmd, str), stdout=stdout, stderr=subprocess.STDOUT,
+                           text=True, timeout=timeout, env=env or ENV, stdin=stdin)
+    except subprocess.TimeoutExpired as e:
+        # a hanging harness / driver / build (e.g. a decoder that loops) is a failed run, reported by the caller
+        out = e.stdout if isinstance(e.stdout, str) else (e.stdout or b"").decode("utf-8", "replace")
+        return 124, (out or "") + f"\nTIMEOUT after {timeout}s: {cmd if isinstance(cmd, str) else ' '.join(map(str, cmd))[:300]}", time.time() - t
     return p.returncode, (p.stdout or ""), time.time() - t
 
 
@@ -242,8 +247,10 @@ def cargo_build(ctx, features=None):
 
 
 def harness(ctx, args, timeout=3000):
+    # one seed per property, so that checks that share a generator do not all look at the same histories
+    pseed = ctx.seed * 100 + (int(ctx.pid[1:]) if ctx.pid[1:].isdigit() else 0)
     cmd = [os.path.join(HARNESS, "target/debug/vharness")] + [str(a) for a in args] + \
-          ["--seed", str(ctx.seed), "--tier", ctx.tier]
+          ["--seed", str(pseed), "--tier", ctx.tier]
     rc, out, dt = sh(cmd, cwd=HARNESS, timeout=timeout)
     ctx.log(f"harness {' '.join(str(a) for a in args[:3])}: rc={rc} ({dt:.1f}s)")
     kv = {}
